@@ -363,6 +363,10 @@ func GenEngineScript(r *Rng, o EngineGenOpts, hist map[string]int) []string {
 				}
 				y := r.Intn(10)
 				switch {
+				case y < 5 && r.Chance(1, 6):
+					// a Put whose overflow flush (when one is due) the operating system refuses
+					add("bputfail %s %s", genEngKey(r, hist), genEngVal(r, o, c, hist))
+					hist["op_batch_put_with_refused_flush"]++
 				case y < 5:
 					add("bput %s %s", genEngKey(r, hist), genEngVal(r, o, c, hist))
 				case y < 7:
@@ -879,6 +883,9 @@ func init() {
 			for v := 0; v < *variants; v++ {
 				lines = append(lines, fmt.Sprintf("S %d.%c", i, 'a'+v))
 				for _, l := range sc {
+					if strings.HasPrefix(l, "E bputfail ") {
+						l = "E bput " + strings.TrimPrefix(l, "E bputfail ") // the fault depends on the I/O type
+					}
 					if l == "E commitfail" {
 						// whether the fault can be injected depends on the I/O type: not an operation of a lock-step comparison
 						continue
